@@ -255,7 +255,7 @@ func checkC03(p *Prog, r *Report) {
 			}
 		}
 	}
-	c03GateArgs(p, ib, r)
+	p.WithHelperParams(func() { c03GateArgs(p, ib, r) })
 	r.Assumes("loops are unrolled at most once; the inbound datagram is abstracted to classifier x ackRequest x approval callbacks",
 		"HasLocalFeatureRemoteBinding itself is checked by C09-R6; registry contents are not interpreted")
 }
@@ -266,26 +266,32 @@ func c03GateArgs(p *Prog, ib *inbound, r *Report) {
 	var handler, binding, opsLookup *ssa.Call
 	var writeCall *ssa.Call
 	var lookup *ssa.Lookup
-	forEachCall(fn, func(site ssa.CallInstruction) {
-		c, ok := site.(*ssa.Call)
-		if !ok {
-			return
-		}
-		switch {
-		case c.Call.IsInvoke() && c.Call.Method.Name() == "HandleMessage":
-			handler = c
-		case calleeIsIfaceMethod(&c.Call, ib.bindMgr, "HasLocalFeatureRemoteBinding"):
-			binding = c
-		case calleeIsIfaceMethod(&c.Call, ib.ops, "Write"):
-			writeCall = c
-		case c.Call.IsInvoke() && c.Call.Method.Name() == "Operations":
-			opsLookup = c
-		}
-	})
-	for _, b := range fn.Blocks {
-		for _, ins := range b.Instrs {
-			if lk, ok := ins.(*ssa.Lookup); ok && lk.CommaOk && opsLookup != nil && lk.X == ssa.Value(opsLookup) {
-				lookup = lk
+	// the gates sit in ProcessCmd or in a helper extracted from it
+	scope := p.helperClosure(fn, 2)
+	for _, g := range scope {
+		forEachCall(g, func(site ssa.CallInstruction) {
+			c, ok := site.(*ssa.Call)
+			if !ok {
+				return
+			}
+			switch {
+			case c.Call.IsInvoke() && c.Call.Method.Name() == "HandleMessage":
+				handler = c
+			case calleeIsIfaceMethod(&c.Call, ib.bindMgr, "HasLocalFeatureRemoteBinding"):
+				binding = c
+			case calleeIsIfaceMethod(&c.Call, ib.ops, "Write"):
+				writeCall = c
+			case c.Call.IsInvoke() && c.Call.Method.Name() == "Operations":
+				opsLookup = c
+			}
+		})
+	}
+	for _, g := range scope {
+		for _, b := range g.Blocks {
+			for _, ins := range b.Instrs {
+				if lk, ok := ins.(*ssa.Lookup); ok && lk.CommaOk && opsLookup != nil && lk.X == ssa.Value(opsLookup) {
+					lookup = lk
+				}
 			}
 		}
 	}
@@ -301,7 +307,7 @@ func c03GateArgs(p *Prog, ib *inbound, r *Report) {
 	// remote: <remoteDevice param>.FeatureByAddress(<header>.AddressSource).Address()
 	okRemote := false
 	if c, ok := args[1].(*ssa.Call); ok && c.Call.IsInvoke() && c.Call.Method.Name() == "Address" {
-		if fb, ok := unwrapIface(c.Call.Value).(*ssa.Call); ok && fb.Call.IsInvoke() && fb.Call.Method.Name() == "FeatureByAddress" {
+		if fb, ok := substParam(unwrapIface(c.Call.Value)).(*ssa.Call); ok && fb.Call.IsInvoke() && fb.Call.Method.Name() == "FeatureByAddress" {
 			okRemote = strings.HasPrefix(Path(fb.Call.Value), "param:") && strings.HasSuffix(Path(fb.Call.Args[0]), ".Header.AddressSource")
 		}
 	}
@@ -335,4 +341,21 @@ func c03GateArgs(p *Prog, ib *inbound, r *Report) {
 		}
 	}
 	r.Check("R3a", base+"|message", msgOK, p.InstrPos(handler), "message literal not found")
+}
+
+// substParam follows a helper parameter to the argument it stands for (only
+// under Prog.WithHelperParams).
+func substParam(v ssa.Value) ssa.Value {
+	for i := 0; i < 4; i++ {
+		par, ok := v.(*ssa.Parameter)
+		if !ok || pathSubst == nil {
+			return v
+		}
+		a := pathSubst(par)
+		if a == nil {
+			return v
+		}
+		v = unwrapIface(a)
+	}
+	return v
 }
